@@ -32,6 +32,8 @@
                                           the provider's decoders read, with the assertion type the provider's revocation parser asks for.
 -/
 import OidcModel.Proofs.C14Deep
+import OidcModel.Proofs.C14Time
+import OidcModel.Proofs.C14TimeEp
 import OidcModel.Generated.AssertionHelpers
 namespace C14
 open Go Gen Hand
